@@ -70,8 +70,8 @@ theorem mem_insert {v x v' : Value} {prev : Option Value} {K X : Kind} {p : Path
     (ok : insertOk K p = true) (hi : v.insert p x = .ok (v', prev)) :
     mem v' (K.insert p X) = true ∧ v'.Sorted = true := by
   refine ⟨?_, C18.insert_sorted v p x v' prev hvs hxs hi⟩
-  simp only [insertOk, Bool.and_eq_true, Bool.not_eq_true'] at ok
-  have := insertRec_sound p (some v) K x X.upgradeUndefined hvs hv (mem_upgrade_of_memR hx) ok.1.1 ok.1.2 ok.2
+  simp only [insertOk, insertClassOk, Bool.and_eq_true, Bool.not_eq_true'] at ok
+  have := insertRec_sound p (some v) K x X.upgradeUndefined hvs hv (mem_upgrade_of_memR hx) ok.1 ok.2.1 ok.2.2
   unfold Value.insert at hi
   split at hi
   · cases hi
